@@ -371,8 +371,22 @@ struct HllObj : Obj {
   long max_size() override { return updatable ? (long)hll_sketch::get_max_updatable_serialization_bytes(sk.get_lg_config_k(), sk.get_target_type()) : -1; }
   Obj* de(const void* p, size_t n) override { return new HllObj(hll_sketch::deserialize(p, n), updatable); }
   Obj* de(std::istream& is) override { return new HllObj(hll_sketch::deserialize(is), updatable); }
+  // a compact image does not keep the slot order of the coupon hash set; when the restored set is later promoted to an HLL array
+  // its coupons are replayed in a different order, and the HIP accumulator (and the rounding of the KxQ sums) is order dependent by
+  // design: after continuing, only the order-independent content is compared for compact images
+  bool cont_exact() override { return updatable; }
   void observe(Line& l, int mode) override {
     l.push_back(sk.get_lg_config_k()); l.push_back((int)sk.get_target_type()); l.push_back(sk.is_empty());
+    if (mode == 3) {
+      hll_mode m = sk.get_current_mode();
+      l.push_back((int)m);
+      std::vector<uint32_t> v;
+      if (m == LIST || m == SET) { const CouponList<A>* cl = static_cast<const CouponList<A>*>(sk.sketch_impl); for (auto it = cl->begin(false); it != cl->end(); ++it) v.push_back(*it); }
+      else { const HllArray<A>* h = static_cast<const HllArray<A>*>(sk.sketch_impl); for (auto it = h->begin(false); it != h->end(); ++it) v.push_back(*it); l.push_back(h->getCurMin()); l.push_back(h->getNumAtCurMin()); }
+      std::sort(v.begin(), v.end());
+      l.push_back((I)v.size()); for (uint32_t c : v) l.push_back(c);
+      return;
+    }
     if (mode <= 1) {
       hll_mode m = sk.get_current_mode();
       l.push_back((int)m); l.push_back(sk.is_out_of_order_flag());
